@@ -41,6 +41,8 @@ class Job:
         self.stdout_path = None
         self.stderr_path = None
         self.directives = {}
+        self.family = None  # scheduler that issued the id: slurm / sge / lsf
+        self.shadow = {}  # family -> displayed code of an unrelated job with the same id in another scheduler
 
     @property
     def ended(self):
@@ -70,10 +72,12 @@ class SimCluster:
         self.on_accept = None  # callback(job) right after a job has been accepted
         self.before_cmd = None  # callback(cmd, n, argv)
         self.accounting_lag = False
+        self._current_cmd = None
 
     # ------------------------------------------------------------------ commands
     def exec(self, argv, stdin=""):
         cmd = argv[0].rsplit("/", 1)[-1]
+        self._current_cmd = cmd
         n = self.counts[cmd] = self.counts.get(cmd, 0) + 1
         if self.before_cmd:
             self.before_cmd(cmd, n, argv)
@@ -116,6 +120,7 @@ class SimCluster:
         if jid in self.jobs:
             raise SimError("duplicate job id")
         job = Job(jid, name, script, deps, raw_dep, len(self.jobs), argv)
+        job.family = {"sbatch": "slurm", "qsub": "sge", "bsub": "lsf"}.get(self._current_cmd, self.flavour)
         self.jobs[jid] = job
         self.tick += 1
         self.journal.append((self.tick, "submit", jid))
@@ -181,6 +186,10 @@ class SimCluster:
             return 1, "", "squeue: error: Invalid job format specification\n"
         lines = [] if noheader else ["JOBID;ST"]
         for j in sorted(self.jobs.values(), key=lambda j: int(j.id)):
+            if j.family not in (None, "slurm"):
+                if "slurm" in j.shadow:
+                    lines.append(f"{j.id};{j.shadow['slurm']}")
+                continue
             if j.in_queue:
                 lines.append(f"{j.id};{self.slurm_short(j)}")
         return 0, "".join(l + "\n" for l in lines), ""
@@ -205,7 +214,7 @@ class SimCluster:
         lines = []
         for i in ids.split(","):
             j = self.jobs.get(i)
-            if j is None or not j.in_acct or j.foreign:
+            if j is None or not j.in_acct or j.foreign or j.family not in (None, "slurm"):
                 continue
             lines.append(f"{j.id}|{self.slurm_long(j)}")
         return 0, "".join(l + "\n" for l in lines), ""
@@ -295,6 +304,13 @@ class SimCluster:
             return 1, "", "qstat: unsupported options in simulation\n"
         run, pend = [], []
         for j in sorted(self.jobs.values(), key=lambda j: int(j.id)):
+            if j.family not in (None, "sge"):
+                if "sge" not in j.shadow:
+                    continue
+                code = j.shadow["sge"]
+                run.append(f'      <job_list state="running">\n        <JB_job_number>{j.id}</JB_job_number>\n'
+                           f"        <JB_name>other</JB_name>\n        <state>{code}</state>\n      </job_list>\n")
+                continue
             if not j.in_queue or j.ended:
                 continue
             code = self.sge_code(j)
@@ -365,6 +381,10 @@ class SimCluster:
         if len(args) != 4 or args[:3] != ["-noheader", "-o", "stat"]:
             return 255, "", "bjobs: unsupported options in simulation\n"
         j = self.jobs.get(args[3])
+        if j is not None and j.family not in (None, "lsf"):
+            if "lsf" in j.shadow:
+                return 0, j.shadow["lsf"] + "\n", ""
+            return 0, "", f"Job <{args[3]}> is not found\n"
         if j is None or not j.in_queue or j.foreign:
             return 0, "", f"Job <{args[3]}> is not found\n"
         return 0, (j.code or self.LSF_CODE[j.state]) + "\n", ""
